@@ -444,6 +444,8 @@ class Fn:
         decos = [u(d) for d in fn.decorator_list]
         if decos not in ([], ['lru_cache(1000)']):
             raise Problem('unexpected decorators %r' % decos)
+        if decos:
+            self.module.check_global('lru_cache', 'functools')     # a transparent memo of a pure function
         a = fn.args
         if a.vararg or a.kwarg or a.kwonlyargs or a.defaults or getattr(a, 'posonlyargs', []):
             raise Problem('unexpected parameter list')
